@@ -40,7 +40,8 @@ def main():
             judged[name] = judged.get(name, True) and ok
         summary = shape.summarize(out, env.model)
         cli = shape.cli_summary(env.model)
-        res = {'summary': summary, 'judged': judged, 'cli': cli,
+        cli_judged = shape.judge_cli(summary, cli) if (cli is not None and hasattr(shape, 'judge_cli')) else {}
+        res = {'summary': summary, 'judged': judged, 'cli': cli, 'cli_judged': cli_judged,
                'cli_agrees': None if cli is None else shape.cli_agrees(summary, cli),
                'assumption_violated': env.violated_assumption}
     finally:
